@@ -52,7 +52,7 @@ def judge(res, args):
 
 def run(tier, work):
     v = C.Verdict("C04", tier, work)
-    rng = C.rng(4)
+    rng = C.tier_rng(tier, 4)
     stats = dict(states=0, transitions=0, traces=0, trace_events=0)
     r = C.run_tlc(work, "MCRun", "Run_mc.cfg", workers=4, timeout=600)
     if not r.ok:
